@@ -525,8 +525,8 @@ def fam_hostile(seed, kind=None, pick=None):
 
 
 # ---------------------------------------------------------------------------------------------------------- operator zoo (options-table walk)
-def _f(g, name, shape, dt="float32", data=None):
-    t = g.net.add_t(name, list(shape), dt)
+def _f(g, name, shape, dt="float32", data=None, q=False):
+    t = g.net.add_t(name, list(shape), dt, [1.0], [0]) if q else g.net.add_t(name, list(shape), dt)
     if data is not None:
         t.data = np.ascontiguousarray(np.asarray(data, dtype=t.dtype).reshape(shape))
     return name
@@ -542,6 +542,11 @@ def _zoo_entries():
     x4 = lambda g: _f(g, "x", (1, 4, 4, 8))  # noqa: E731
     add("CONCATENATION", "ConcatenationOptions", dict(axis=2, fused_activation_function=1), lambda g: ([x4(g), _f(g, "y", (1, 4, 4, 8))], [_f(g, "o", (1, 4, 8, 8))]))
     add("RESHAPE", "ReshapeOptions", dict(new_shape=[1, 16, 8]), lambda g: ([x4(g), _f(g, "s", (3,), "int32", [1, 16, 8])], [_f(g, "o", (1, 16, 8))]))
+    # RESHAPEs that pass the semantic checks but not the accelerator's (32-bit / 64-bit tensors): CPU-resident by the second check, shape given with a -1
+    add("RESHAPE", "ReshapeOptions", dict(new_shape=[1, -1]), lambda g: ([_f(g, "x", (1, 4, 4, 8), "int32", q=True), _f(g, "s", (2,), "int32", [1, -1])], [_f(g, "o", (1, 128), "int32", q=True)]))
+    add("RESHAPE", "ReshapeOptions", dict(new_shape=[2, -1, 8]), lambda g: ([_f(g, "x", (1, 4, 4, 8), "int32", q=True)], [_f(g, "o", (2, 8, 8), "int32", q=True)]))
+    add("SQUEEZE", "SqueezeOptions", dict(squeeze_dims=[0]), lambda g: ([_f(g, "x", (1, 4, 4, 8), "int32", q=True)], [_f(g, "o", (4, 4, 8), "int32", q=True)]))
+    add("EXPAND_DIMS", "ExpandDimsOptions", {}, lambda g: ([_f(g, "x", (4, 4, 8), "int32", q=True), _f(g, "a", (), "int32", 0)], [_f(g, "o", (1, 4, 4, 8), "int32", q=True)]))
     add("PAD", "PadOptions", {}, lambda g: ([x4(g), _f(g, "p", (4, 2), "int32", [0, 0, 1, 1, 2, 0, 0, 0])], [_f(g, "o", (1, 6, 6, 8))]))
     add("PADV2", "PadV2Options", {}, lambda g: ([x4(g), _f(g, "p", (4, 2), "int32", [0, 0, 1, 1, 2, 0, 0, 0]), _f(g, "c", (1,), "float32", [0.5])], [_f(g, "o", (1, 6, 6, 8))]))
     add("MIRROR_PAD", "MirrorPadOptions", dict(mode=1), lambda g: ([x4(g), _f(g, "p", (4, 2), "int32", [0, 0, 1, 1, 2, 0, 0, 0])], [_f(g, "o", (1, 6, 6, 8))]))
